@@ -20,7 +20,7 @@ import vlib
 
 BASE = 1000
 FAR = 1 << 20
-KINDS = {"INIT": 1, "IACK": 2, "CECHO": 10, "CACK": 11, "DATA": 0, "SACK": 3, "FWD": 192}
+KINDS = {"INIT": 1, "IACK": 2, "CECHO": 10, "CACK": 11, "DATA": 0, "SACK": 3, "FWD": 192, "GSACK": 253}
 
 DEFAULT_CFG = {"rto_initial_ms": 50, "rto_min_ms": 50, "rto_max_ms": 200, "max_hold_ms": 300}
 DEADLINE_MS = 4000  # 20 x rto_max
@@ -80,6 +80,19 @@ def tlc_mc(ck, label, timeout=600, workers=8, sched_sink=None, **kw):
     return res
 
 
+def concrete(f):
+    """TLC's FaultRec -> the address the proxy uses: a SACK that carried gap blocks in the model is addressed
+    as the n-th gap-SACK of its direction (robust against the number of plain SACKs before it)"""
+    g = dict(f)
+    if g.get("k") == "SACK" and g.get("g", 0) > 0:
+        g["k"], g["o"] = "GSACK", g["g"]
+    if g.get("ak") == "SACK" and g.get("at", 0) > 0:
+        pass  # released after the first SACK that acknowledges at least `at` chunks
+    elif g.get("ak") == "SACK" and g.get("ag", 0) > 0:
+        g["ak"], g["ao"] = "GSACK", g["ag"]
+    return g
+
+
 def schedules_from(path):
     """distinct fault histories printed by the generator, shortest first, deterministic order"""
     seen = {}
@@ -88,7 +101,7 @@ def schedules_from(path):
             line = line.strip()
             if not line:
                 continue
-            fl = json.loads(line)
+            fl = [concrete(f) for f in json.loads(line)]
             key = json.dumps(fl, sort_keys=True)
             seen.setdefault(key, fl)
     out = [seen[k] for k in sorted(seen)]
